@@ -440,8 +440,8 @@ def exhaustive(tier):
     small = IVS_QUICK + IVS_FLOAT[:2]
     cases = []
 
-    def add(tree, via="text"):
-        cases.append(dict(tree=tree, via=via))
+    def add(tree, via="text", oracle_only=False):
+        cases.append(dict(tree=tree, via=via, oracle_only=oracle_only))
 
     for (a, b) in ivs_all:
         I = IV(a, b)
@@ -464,6 +464,14 @@ def exhaustive(tier):
             add(["c2", "^", I, N(e)])
         for bs in BASES:
             add(["c2", "log", I, bs])
+    # bounds below the smallest positive double (their logarithm lies far below log(5e-324)).  The model has no notion
+    # of "too small to convert", so these go to the enclosure oracle only: a rejection is fine, a result must enclose
+    for (a, b) in ((Fraction(1, 10 ** 400), 1), (Fraction(1, 10 ** 500), Fraction(1, 10 ** 400)), (Fraction(1, 10 ** 330), 2)):
+        I = IV(a, b)
+        for u in ("ln", "log2", "log10", "sqrt"):
+            add(["c1", u, I], oracle_only=True)
+        for bs in BASES:
+            add(["c2", "log", I, bs], oracle_only=True)
     for (a, b) in (ivs_all if tier != "quick" else small):
         for (c, d) in (ivs_all if tier != "quick" else small):
             for f in BIN_II:
@@ -766,7 +774,7 @@ def run(ctx):
             mod = parse_model(m)
             if len(samples_out) < 8 and i % 1201 == 7:
                 samples_out.append(dict(input=text, via=c["via"], impl=got, model=m, points=r.get("samples", [])[:3]))
-            if mod == ("E", "Unmodelled"):
+            if mod == ("E", "Unmodelled") or c.get("oracle_only"):
                 continue
             if not same_outcome(imp, mod, r.get("taint", False)):
                 disagreements += 1
